@@ -160,7 +160,25 @@ fn gen_update(s: &mut Src, budget: &mut usize) -> FpUpdate {
     }
 }
 
+/// "many": PDUs with hundreds of updates and bitmap updates with hundreds of tiny rectangles
+fn many_case(n_updates: usize, n_rects: usize, user_id: u16) -> Case {
+    let tiny = |i: usize| Rect { left: i as u16, top: (i >> 3) as u16, right: i as u16, bottom: 0, width: 1, height: 1, bpp: 16, flags: 0, cd_scan_width: 0, cd_uncompressed: 0, data: vec![i as u8, (i >> 8) as u8] };
+    let mut updates: Vec<FpUpdate> = Vec::new();
+    for i in 0..n_updates.saturating_sub(1) {
+        updates.push(if i % 3 == 0 { FpUpdate::Bitmap(vec![tiny(i)]) } else if i % 3 == 1 { FpUpdate::Synchronize } else { FpUpdate::PointerNull });
+    }
+    updates.push(FpUpdate::Bitmap((0..n_rects).map(|i| tiny(10_000 + i)).collect()));
+    Case { pdus: vec![Pdu { updates, first: 0, long_len: true }, Pdu { updates: vec![FpUpdate::Bitmap(vec![tiny(7)])], first: 0, long_len: false }], chunk: 0, user_id }
+}
+
 pub fn decode(s: &mut Src) -> Case {
+    if s.chance(2) {
+        let nu = s.pick(&[1usize, 2, 255, 256, 257, 300, 600]);
+        let nr = s.pick(&[1usize, 255, 256, 257, 300, 511, 512, 513, 900]);
+        // the PDU must fit the 15-bit fast-path length
+        let (nu, nr) = if nu * 8 + nr * 20 > 0x7000 { (nu.min(2), nr.min(900)) } else { (nu, nr) };
+        return many_case(nu, nr, 1004);
+    }
     let n = 1 + s.below(8);
     let mut pdus = Vec::new();
     for _ in 0..n {
@@ -241,6 +259,12 @@ pub fn run_tls(c: &Case) -> Outcome {
 pub fn check(rep: &Report) {
     rep.assume("updates are uncompressed and unfragmented (the property's stated domain); fast-path security flags are 0 (TLS)");
     rep.assume("unsupported update kinds carry opaque bodies; the client is only required to skip them");
+    let mut many = Vec::new();
+    for n in [254usize, 255, 256, 257, 258, 300, 511, 512, 513, 1000, 1500] {
+        many.push(many_case(1, n, 1004));
+        many.push(many_case(n.min(1200), 3, 1004));
+    }
+    rep.list("many-elements", many, run);
     rep.random("streams", rep.tier.n(60_000, 4_000_000), 400, decode, run);
     crate::tls::pki();
     rep.random("tls", rep.tier.n(300, 10_000), 300, decode, run_tls);
